@@ -856,7 +856,7 @@ def nucDirAtomicWeight(nuc):
 #   liner.getVolume() -> 1.76197 (stale) ; liner.getArea() * b.getHeight() -> 1.61156
 # While the flag is set the volume / mass obligations of the chain's far end are made only for histories in which the
 # volume was not read before the change; VERIF_SHOW_KNOWN_DEFECTS=1 shows the violations.
-KNOWN_DEFECT_chained_link_volume_stale = True
+KNOWN_DEFECT_chained_link_volume_stale = False  # repaired in /repo (fix: 4101a5c)
 _SHOW_KNOWN = os.environ.get("VERIF_SHOW_KNOWN_DEFECTS", "") != ""
 
 
